@@ -111,8 +111,10 @@ pub struct History {
     /// the call that produced it
     pub item_ev_end: Vec<usize>,
     pub stats: RefStats,
-    /// (char position, rule set, match start) after each item, for clone-continuation checks
     pub final_done: bool,
+    /// why the stream ended: 1 = Init reached end of input at a lexeme boundary, 2 = end of input
+    /// had already been acted upon by an earlier match or error (done flag)
+    pub end_kind: u8,
 }
 
 pub struct CRule {
@@ -519,6 +521,9 @@ impl<'a> RefRun<'a> {
         cfg.calls += 1;
         loop {
             if cfg.done {
+                if h.end_kind == 0 {
+                    h.end_kind = 2;
+                }
                 return None;
             }
             let read_one = if self.n_ambiguous < 64 {
@@ -551,6 +556,7 @@ impl<'a> RefRun<'a> {
                         h.stats.eoi_events += 1;
                         if cfg.set == 0 {
                             h.stats.end_class = Some((false, 0, false));
+                            h.end_kind = 1;
                             return None;
                         }
                         h.stats.end_class = Some((true, 0, false));
